@@ -56,6 +56,8 @@ def _post(snap, res, graph, a, b, *, conditions=None):
     want = b not in conn_cache[ck]
     got = bool(res)
     case = {"graph": _gd(ref), "a": str(a), "b": str(b), "C": sorted(map(str, C))}
+    if set(graph.directed.nodes()) != set(graph.undirected.nodes()):
+        case["raw"] = True  # built with the dataclass constructor: replay rebuilds it the same way
     if got != want:
         kernel.violation(
             PROP, "verdict",
